@@ -116,6 +116,36 @@ fn vp_native_head_roundtrip_small() {
             } } } }
         }
     }
+    // every status code 100..=999, several reason phrases and version tokens
+    for status in 100u16..=999 { for (version, reason) in [("HTTP/1.1", "OK"), ("HTTP/1.0", ""), ("HTTP/1.1", "A Longer Reason-Phrase (with) punctuation")] {
+        let wire = format!("{} {} {}\r\nX-One: 1\r\nContent-Length: 0\r\n\r\n", version, status, reason).into_bytes();
+        let req = PreparedRequest::new(Method::GET, "http://a.test/");
+        let resp = parse_response(BaseStream::mock(wire), &req, req.url()).unwrap_or_else(|e| panic!("status {} {:?} {:?}: {}", status, version, reason, e));
+        assert_eq!(resp.status().as_u16(), status); assert_eq!(resp.headers().get("x-one").map(|v| v.as_bytes()), Some(&b"1"[..]));
+        cases += 1;
+    } }
+    // header blocks larger than the 8 KiB read buffer: up to the default limit of 100 fields, long values, obs-text, duplicates in wire order
+    for nfields in [1usize, 37, 99, 100] { for vlen in [0usize, 1, 200, 3000] {
+        let mut fields: Vec<(String, Vec<u8>)> = Vec::new();
+        for i in 0..nfields - 1 {
+            let name = if i % 5 == 0 { "Set-Cookie".to_string() } else { format!("X-Field-{}", i) };
+            let mut v: Vec<u8> = (0..vlen).map(|j| match (i + j) % 7 { 0 => b' ', 1 => 0xE9, 2 => b'\t', _ => b'!' + ((i * 13 + j) % 90) as u8 }).collect();
+            if let Some(f) = v.first_mut() { if *f == b' ' || *f == b'\t' { *f = b'v'; } }
+            if let Some(l) = v.last_mut() { if *l == b' ' || *l == b'\t' { *l = b'v'; } }
+            fields.push((name, v));
+        }
+        let mut wire = b"HTTP/1.1 200 OK\r\n".to_vec();
+        for (n, v) in &fields { wire.extend_from_slice(n.as_bytes()); wire.extend_from_slice(b":  "); wire.extend_from_slice(v); wire.extend_from_slice(b" \r\n"); }
+        wire.extend_from_slice(b"Content-Length: 0\r\n\r\n");
+        let req = PreparedRequest::new(Method::GET, "http://a.test/");
+        let resp = parse_response(BaseStream::mock(wire.clone()), &req, req.url()).unwrap_or_else(|e| panic!("{} fields with {}-byte values ({} byte head): {}", nfields, vlen, wire.len(), e));
+        cases += 1;
+        assert_eq!(resp.headers().len(), nfields, "field count");
+        let cookies: Vec<Vec<u8>> = fields.iter().filter(|(n, _)| n == "Set-Cookie").map(|(_, v)| v.clone()).collect();
+        let got: Vec<Vec<u8>> = resp.headers().get_all("set-cookie").iter().map(|v| v.as_bytes().to_vec()).collect();
+        assert!(got == cookies, "repeated fields in wire order ({} fields, {}-byte values)", nfields, vlen);
+        for (n, v) in fields.iter().filter(|(n, _)| n != "Set-Cookie") { assert!(resp.headers().get(&n[..]).map(|x| x.as_bytes()) == Some(&v[..]), "value of {} ({} fields, {}-byte values)", n, nfields, vlen); }
+    } }
     println!("VP-NATIVE head_roundtrip_small cases={}", cases);
 }
 
